@@ -3,6 +3,8 @@ package harness
 import (
 	"bytes"
 	"fmt"
+	"runtime"
+	"strings"
 	"sync"
 	"sync/atomic"
 	"testing"
@@ -119,7 +121,9 @@ func TestC18Race(t *testing.T) {
 				defer close(done[w])
 				defer func() {
 					if r := recover(); r != nil {
-						panics[w] = fmt.Sprint(r)
+						buf := make([]byte, 1<<14)
+						buf = buf[:runtime.Stack(buf, false)]
+						panics[w] = fmt.Sprintf("%v\n%s", r, trimStack(string(buf)))
 					}
 				}()
 				for i := 0; ; i++ {
@@ -260,8 +264,16 @@ func TestC18Race(t *testing.T) {
 		for w := 0; w < nworkers; w++ {
 			select {
 			case <-done[w]:
-			case <-time.After(30 * time.Second):
-				t.Fatalf("C18-VIOLATION deadlock: worker %d (%s) did not terminate within 30 s after the stop signal; workers=%v keyed=%v", w, c18Names[kinds[w]], kinds, keyed)
+			case <-time.After(time.Duration(envInt("VERIF_C18_WATCHDOG_S", 60)) * time.Second):
+				buf := make([]byte, 64<<20)
+				buf = buf[:runtime.Stack(buf, true)]
+				var keep []string
+				for _, g := range strings.Split(string(buf), "\n\n") {
+					if strings.Contains(g, "kelindar/column") {
+						keep = append(keep, g)
+					}
+				}
+				t.Fatalf("C18-VIOLATION deadlock: worker %d (%s) did not terminate within the watchdog limit after the stop signal; workers=%v keyed=%v\nworker panics so far: %q\n=== goroutines inside kelindar/column ===\n%s", w, c18Names[kinds[w]], kinds, keyed, panics, strings.Join(keep, "\n\n"))
 			}
 		}
 		wg.Wait()
